@@ -34,9 +34,9 @@ CHECKS = {
    technique='Lean 4 proof (parser round trip by strong induction, soundness/adjacency invariant and fuel stability by induction over all 12 mutually recursive parsers) + differential tree/value correspondence', design='§6 C03'),
  'C10': dict(
    text='Side-effecting model of the parser (scratch never rolled back on abandoned alternatives) proved to report exactly the names of the resulting tree; parser object (cache + scratch + finally-reset) '
-        'modelled as a state machine with theorem: after ANY history of parse calls the outcome for a string equals a fresh parser\'s. '
+        'modelled as a state machine (value level and object-identity level) with theorem: after ANY history of parse calls the outcome for a string equals a fresh parser\'s, and cached expressions are never altered by later parses. '
         'Tie: usage sets and trees vs pyparsing on generated derivations; call histories (exhaustive short, random long, shared module PARSER with interleaved evaluations) vs model and vs fresh parser.',
-   note=PROOF_NOTE + ' Aliasing of the cached sets (rebinding vs clear()) is represented by value semantics in the model and checked on the real object per call (scratch empty, cache keys).',
+   note=PROOF_NOTE + ' Aliasing of the cached sets is modelled explicitly (object-identity machine PH: set objects bound to the parser, expressions holding the same objects, reset_storage rebinding), proved to refine the value-level machine (parse_refines, cache_alias_safe; the clear() rewrite is refuted by a kernel-checked example) and tied to the code by comparing canonicalised id()s call by call. Callers of parse() are assumed not to mutate the returned sets; that is monitored by a battery of real grader calls followed by a sweep of every cached expression.',
    technique='Lean 4 proof (invariant over histories; doomed-alternative lemma for usage) + history correspondence', design='§6 C10'),
  'C08': dict(
    text='ItemGrader.check modelled generically over an arbitrary check_response; proved for every answers tuple, listing order and input: the grade is the maximum over all (alternative, expect value) pairs, '
@@ -167,10 +167,10 @@ CHECKS = {
  'C11': dict(
    text='ItemGrader.__call__ / AbstractGrader.__call__ modelled as a state machine over the grader object (stored answers, inferring flag, log flag, debug log) with validation, text check and grading as parameters; proved by induction over ANY call history '
         '(including calls that raise in validation, in the input check or in grading): the next call returns what a freshly constructed grader returns for the current expect value or the last successfully supplied one; '
-        'configured answers ignore expect; the debug log shown by a call mentions only that call; the log flag is always cleared. '
+        'configured answers ignore expect; the debug log shown by a call mentions only that call; the log flag is always cleared; the process-wide negative-power switch is back at its default after any history of MatrixGrader calls (returning or raising); construction copies the configuration so that no list or dictionary of the author (also inside tuples) is shared with the grader (object-identity model of coerce2unicode). '
         'Tie: call histories (short exhaustive sample + random longer) on String/Table/SingleList/Formula/Numerical/Matrix/Interval/LinearComparer graders, configured/unconfigured, debug on/off, vs the model instantiated with outcome tables measured on fresh graders and vs fresh instances; '
         'snapshot checks of author config objects, evaluator scopes, class-level defaults, MathArray switch, numpy error state, other grader instances and the process-wide parser.',
-   note=PROOF_NOTE + ' The aliasing clauses (no mutation of author objects / process-wide settings / other instances) are snapshot-compared per case, not proved (value-semantics model). The theorems describe the code as repaired by the fix: commits F1-F3.',
+   note=PROOF_NOTE + ' Two aliasing mechanisms are modelled with object identities and proved (coerce2unicode freshness: constructor_no_alias; the negative-power context manager: negative_powers_history) and tied by identity correspondence; the remaining clauses (evaluator scopes, default tables, numpy error state, class defaults, other instances) are snapshot-compared per case, not proved. The theorems describe the code as repaired by the fix: commits F1-F3.',
    technique='Lean 4 proof (refinement of a call state machine to "fresh grader", induction over histories) + history correspondence + snapshot monitor', design='§6 C11'),
 }
 NA_REASON = 'check not built yet in this round (planned: see DESIGN.md §6); not claimed until its model, theorems and correspondence exist'
